@@ -616,6 +616,36 @@ func (idx *Index) Update(key []byte, location types.Block) error {
 	return nil
 }
 
+// UpdateIf updates the location stored for a key, like Update, but only if ok
+// returns true for the location that is currently stored. It returns whether
+// the location was updated. The check and the update are one critical section,
+// so no other update of the key can come between them.
+func (idx *Index) UpdateIf(key []byte, location types.Block, ok func(current types.Block) bool) (bool, error) {
+	bucket, err := idx.getBucketIndex(key)
+	if err != nil {
+		return false, err
+	}
+	indexKey := stripBucketPrefix(key, idx.sizeBits)
+
+	idx.bucketLk.Lock()
+	defer idx.bucketLk.Unlock()
+	records, err := idx.getRecordsFromBucket(bucket)
+	if err != nil {
+		return false, err
+	}
+	if records == nil {
+		return false, nil
+	}
+	r := records.GetRecord(indexKey)
+	if r == nil || !ok(r.Block) {
+		return false, nil
+	}
+	newData := records.PutKeys([]KeyPositionPair{{r.Key, location}}, r.Pos, r.NextPos())
+	idx.outstandingWork += types.Work(len(newData) + BucketPrefixSize + sizePrefixSize)
+	idx.nextPool[bucket] = newData
+	return true, nil
+}
+
 // Remove removes a key from the index.
 func (idx *Index) Remove(key []byte) (bool, error) {
 	// Get record list and bucket index
